@@ -2,6 +2,7 @@
 # Must-fail corpus: applies every seeded change (seeded/*/patch.diff) and every hand-written mutant
 # (selftest/mutants/*.diff) to a scratch worktree of /repo (never to /repo itself), runs the check of the
 # property it breaks against that worktree, and records whether the check reported a violation.
+# The contract mirror is snapshotted at the start, so edits made while the corpus runs do not leak in.
 # usage: selftest.sh [name-filter]
 set -u
 cd /verif
@@ -9,6 +10,7 @@ filter="${1:-}"
 wt=/tmp/govc-selftest/wt
 rm -rf /tmp/govc-selftest; mkdir -p /tmp/govc-selftest/ev
 git -C /repo worktree prune
+cp -r /verif/contracts /tmp/govc-selftest/contracts   # snapshot: edits made while the corpus runs do not leak in
 git -C /repo worktree add -f -q "$wt" HEAD || exit 2
 out=seeded/RESULTS.txt
 : > /tmp/govc-selftest/results.txt
@@ -21,7 +23,7 @@ for d in seeded/*/ selftest/mutants/*/; do
   git -C "$wt" checkout -q -- . && git -C "$wt" clean -fdq
   if ! git -C "$wt" apply "/verif/$d/patch.diff" 2>/dev/null; then echo "$n $id PATCH-DOES-NOT-APPLY" >> /tmp/govc-selftest/results.txt; continue; fi
   if python3 -c "import json,sys; sys.exit(0 if any(c['property_id']=='$id' for c in json.load(open('MANIFEST.json'))['checks']) else 1)"; then
-    res=$(bin/govc check -repo "$wt" -evidence /tmp/govc-selftest/ev "$id" 2>&1)
+    res=$(bin/govc check -repo "$wt" -contracts /tmp/govc-selftest/contracts -evidence /tmp/govc-selftest/ev "$id" 2>&1)
     if echo "$res" | grep -q "^VIOLATION property=$id"; then
       ob=$(echo "$res" | grep "^   obligation" | head -2 | sed 's/^   obligation //' | cut -c1-110 | tr '\n' ';')
       echo "$n $id DETECTED $ob" >> /tmp/govc-selftest/results.txt
@@ -33,7 +35,7 @@ for d in seeded/*/ selftest/mutants/*/; do
   fi
 done
 git -C /repo worktree remove --force "$wt"
-rm -rf /tmp/govc-selftest/ev
+rm -rf /tmp/govc-selftest/ev /verif/replay/*-alt* /verif/work/*-alt*
 cat /tmp/govc-selftest/results.txt
 if [ -z "$filter" ]; then
   cp /tmp/govc-selftest/results.txt "$out"
